@@ -6,35 +6,69 @@ import PulserModel.Schedule
 import Proofs.Duration
 namespace Pulser
 
+/-- Declarative "inside every limit of the channel" (C01); `maxW`/`sumW` are the
+maximum and the sum of the detuning-map weights of a DMM. -/
+def WithinLimits (cfg : ChanCfg) (maxW sumW : Rat) (σ : PulseSummary) : Prop :=
+  (∀ m, cfg.maxAmp = some m → σ.maxAmp ≤ m) ∧
+  (∀ m, cfg.maxAbsDet = some m → σ.maxAbsDetR ≤ m) ∧
+  ¬ (0 < σ.avgAmp ∧ σ.avgAmp < cfg.minAvgAmp) ∧
+  (cfg.isDmm = true → σ.maxDetR ≤ 0 ∧ (∀ b, cfg.bottom = some b → b ≤ maxW * σ.minDetR) ∧
+    (∀ b, cfg.totalBottom = some b → b ≤ sumW * σ.minDetR))
+
+/-- Limits of a scheduled pulse: user pulses (`ref ≠ 0`) are within the channel limits,
+every pulse respects the maximum duration. -/
+def PulseLim (cfg : ChanCfg) (maxW sumW : Rat) (p : PulseRec) : Prop :=
+  (p.ref ≠ 0 → WithinLimits cfg maxW sumW p.sum) ∧ (∀ m, cfg.maxDur = some m → p.dur ≤ m)
+
+/-- Static context of a channel that the invariants refer to. -/
+structure Ctx where
+  ms : Option Nat      -- device.max_sequence_duration
+  cfg : ChanCfg
+  maxW : Rat
+  sumW : Rat
+
+def ChanState.ctx (c : ChanState) (ms : Option Nat) : Ctx := ⟨ms, c.cfg, c.maxW, c.sumW⟩
+
+@[simp] theorem ChanState.ctx_cfg (c : ChanState) (ms : Option Nat) : (c.ctx ms).cfg = c.cfg := rfl
+@[simp] theorem ChanState.ctx_ms (c : ChanState) (ms : Option Nat) : (c.ctx ms).ms = ms := rfl
+@[simp] theorem ChanState.ctx_maxW (c : ChanState) (ms : Option Nat) : (c.ctx ms).maxW = c.maxW := rfl
+@[simp] theorem ChanState.ctx_sumW (c : ChanState) (ms : Option Nat) : (c.ctx ms).sumW = c.sumW := rfl
+
 /-- How a slot must relate to the slot before it. -/
-def SlotOk (cfg : ChanCfg) (prev s : Slot) : Prop :=
-  s.ti = prev.tf ∧ s.ti ≤ s.tf ∧ (cfg.clock : Int) ∣ s.tf ∧
+def SlotOk (x : Ctx) (prev s : Slot) : Prop :=
+  s.ti = prev.tf ∧ s.ti ≤ s.tf ∧ (x.cfg.clock : Int) ∣ s.tf ∧ (∀ m, x.ms = some m → s.tf ≤ (m : Int)) ∧
   match s.kind with
-  | .pulse p => s.tf = s.ti + p.dur ∧ cfg.minDur ≤ p.dur ∧ s.targets = prev.targets
-  | .delay => (cfg.minDur : Int) ≤ s.tf - s.ti ∧ s.targets = prev.targets
-  | .target => s.tf = s.ti ∨ (cfg.minDur : Int) ≤ s.tf - s.ti
+  | .pulse p => s.tf = s.ti + p.dur ∧ x.cfg.minDur ≤ p.dur ∧ s.targets = prev.targets ∧
+      PulseLim x.cfg x.maxW x.sumW p
+  | .delay => (x.cfg.minDur : Int) ≤ s.tf - s.ti ∧ s.targets = prev.targets
+  | .target => s.tf = s.ti ∨ (x.cfg.minDur : Int) ≤ s.tf - s.ti
 
 def InitSlot (s : Slot) : Prop := s.kind = .target ∧ s.ti = -1 ∧ s.tf = 0
 
 /-- Timeline invariant, stated on the *reversed* slot list (head = latest slot). -/
-def InvR (cfg : ChanCfg) : List Slot → Prop
+def InvR (x : Ctx) : List Slot → Prop
   | [] => True
   | [s] => InitSlot s
-  | s :: prev :: rest => SlotOk cfg prev s ∧ InvR cfg (prev :: rest)
+  | s :: prev :: rest => SlotOk x prev s ∧ InvR x (prev :: rest)
 
-def ChanInv (c : ChanState) : Prop := 0 < c.cfg.clock ∧ InvR c.cfg c.slots.reverse
+def ChanInv (ms : Option Nat) (c : ChanState) : Prop :=
+  0 < c.cfg.clock ∧ InvR (c.ctx ms) c.slots.reverse
 
 /-- `c'` extends `c`: same channel, and the old instructions are a prefix of the new. -/
 def Ext (c c' : ChanState) : Prop :=
-  c'.cfg = c.cfg ∧ c'.name = c.name ∧ c.slots <+: c'.slots
+  c'.cfg = c.cfg ∧ c'.name = c.name ∧ c.slots <+: c'.slots ∧ c'.maxW = c.maxW ∧ c'.sumW = c.sumW
 
-theorem Ext.refl (c : ChanState) : Ext c c := ⟨rfl, rfl, List.prefix_refl _⟩
+theorem Ext.refl (c : ChanState) : Ext c c := ⟨rfl, rfl, List.prefix_refl _, rfl, rfl⟩
 
 theorem Ext.trans {a b c : ChanState} (h1 : Ext a b) (h2 : Ext b c) : Ext a c :=
-  ⟨h2.1.trans h1.1, h2.2.1.trans h1.2.1, h1.2.2.trans h2.2.2⟩
+  ⟨h2.1.trans h1.1, h2.2.1.trans h1.2.1, h1.2.2.1.trans h2.2.2.1, h2.2.2.2.1.trans h1.2.2.2.1,
+   h2.2.2.2.2.trans h1.2.2.2.2⟩
 
-theorem InvR_head {cfg : ChanCfg} {s : Slot} {rest : List Slot} (h : InvR cfg (s :: rest)) :
-    (cfg.clock : Int) ∣ s.tf ∧ 0 ≤ s.tf := by
+theorem Ext.ctx {c c' : ChanState} (h : Ext c c') (ms : Option Nat) : c'.ctx ms = c.ctx ms := by
+  unfold ChanState.ctx; rw [h.1, h.2.2.2.1, h.2.2.2.2]
+
+theorem InvR_head {x : Ctx} {s : Slot} {rest : List Slot} (h : InvR x (s :: rest)) :
+    (x.cfg.clock : Int) ∣ s.tf ∧ 0 ≤ s.tf := by
   induction rest generalizing s with
   | nil => obtain ⟨_, _, h3⟩ := h; rw [h3]; exact ⟨Int.dvd_zero _, Int.le_refl _⟩
   | cons p rest ih =>
@@ -55,22 +89,26 @@ theorem last_ok {c : ChanState} {s : Slot} (h : c.last = .ok s) :
     | cons a l => rw [hr] at hl; injection hl with hl; subst hl; exact ⟨l, rfl⟩
 
 /-- Appending a slot that is `SlotOk` w.r.t. the current last slot keeps the invariant. -/
-theorem ChanInv_snoc {c : ChanState} {last x : Slot} (hi : ChanInv c) (hl : c.last = .ok last)
-    (hx : SlotOk c.cfg last x) : ChanInv { c with slots := c.slots ++ [x] } := by
+theorem ChanInv_snoc {ms : Option Nat} {c : ChanState} {last x : Slot} (hi : ChanInv ms c)
+    (hl : c.last = .ok last)
+    (hx : SlotOk (c.ctx ms) last x) : ChanInv ms { c with slots := c.slots ++ [x] } := by
   obtain ⟨rest, hr⟩ := last_ok hl
   refine ⟨hi.1, ?_⟩
-  show InvR c.cfg (c.slots ++ [x]).reverse
+  show InvR (c.ctx ms) (c.slots ++ [x]).reverse
   rw [List.reverse_append, hr]
   exact ⟨hx, by have := hi.2; rwa [hr] at this⟩
 
 theorem Ext_snoc (c : ChanState) (x : Slot) : Ext c { c with slots := c.slots ++ [x] } :=
-  ⟨rfl, rfl, List.prefix_append _ _⟩
+  ⟨rfl, rfl, List.prefix_append _ _, rfl, rfl⟩
 
-theorem checkDuration_ok {m : Option Nat} {t : Int} : checkDuration m t = .ok () ∨ ∃ e, checkDuration m t = .error e := by
-  unfold checkDuration
-  cases m with
-  | none => exact .inl rfl
-  | some m => by_cases h : t > (m : Int) <;> simp [h]
+theorem checkDuration_bound {ms : Option Nat} {t : Int} {u : Unit} (h : checkDuration ms t = .ok u) :
+    ∀ m, ms = some m → t ≤ (m : Int) := by
+  intro m hm
+  subst hm
+  unfold checkDuration at h
+  by_cases h1 : t > (m : Int)
+  · simp [h1] at h
+  · omega
 
 end Pulser
 
@@ -83,8 +121,15 @@ theorem mkDetunedDelay_ok {c : ChanState} {d : Nat} {x y : Rat} {p : PulseRec}
   | none => rw [hl] at h; cases h
   | some v => rw [hl] at h; obtain ⟨a, b⟩ := v; injection h with h; subst h; rfl
 
-theorem addDelay_inv {ms : Option Nat} {c c' : ChanState} {d : Nat} (hi : ChanInv c)
-    (h : addDelay ms c d = .ok c') : ChanInv c' ∧ Ext c c' := by
+theorem mkDetunedDelay_ref {c : ChanState} {d : Nat} {x y : Rat} {p : PulseRec}
+    (h : mkDetunedDelay c d x y = .ok p) : p.ref = 0 := by
+  unfold mkDetunedDelay at h
+  cases hl : c.lookupDD x d with
+  | none => rw [hl] at h; cases h
+  | some v => rw [hl] at h; obtain ⟨a, b⟩ := v; injection h with h; subst h; rfl
+
+theorem addDelay_inv {ms : Option Nat} {c c' : ChanState} {d : Nat} (hi : ChanInv ms c)
+    (h : addDelay ms c d = .ok c') : ChanInv ms c' ∧ Ext c c' := by
   unfold addDelay at h
   cases hl : c.last with
   | error e => rw [hl] at h; cases h
@@ -103,18 +148,22 @@ theorem addDelay_inv {ms : Option Nat} {c c' : ChanState} {d : Nat} (hi : ChanIn
       | error e => simp [hl, hv, hc, bind, Except.bind] at h
       | ok u =>
         simp only [hl, hv, hc, bind, Except.bind] at h
-        have hdelay : ChanInv { c with slots := c.slots ++ [⟨.delay, last.tf, last.tf + d', last.targets⟩] } :=
-          ChanInv_snoc hi hl ⟨rfl, by simp; omega, hdvd, hmin, rfl⟩
+        have hb := checkDuration_bound hc
+        have hdelay : ChanInv ms { c with slots := c.slots ++ [⟨.delay, last.tf, last.tf + d', last.targets⟩] } :=
+          ChanInv_snoc hi hl ⟨rfl, by simp; omega, hdvd, hb, hmin, rfl⟩
         split at h
         · split at h
-          · rename_i b _ hb
+          · rename_i b _ hbb
             cases hm : mkDetunedDelay c d' b.detOff c.lastPulsePhase with
             | error e => rw [hm] at h; cases h
             | ok p =>
               rw [hm] at h; injection h with h; subst h
               have hp := mkDetunedDelay_ok hm
-              exact ⟨ChanInv_snoc hi hl ⟨rfl, by simp; omega, hdvd, by simp [hp], by
-                simp [hp]; omega, rfl⟩, Ext_snoc _ _⟩
+              have hpl : PulseLim c.cfg c.maxW c.sumW p := by
+                refine ⟨fun hne => absurd (mkDetunedDelay_ref hm) hne, ?_⟩
+                rw [hp]; exact hd.2.1
+              exact ⟨ChanInv_snoc hi hl ⟨rfl, by simp; omega, hdvd, hb, by simp [hp], by
+                simp [hp]; omega, rfl, hpl⟩, Ext_snoc _ _⟩
           · injection h with h; subst h; exact ⟨hdelay, Ext_snoc _ _⟩
         · injection h with h; subst h; exact ⟨hdelay, Ext_snoc _ _⟩
 
@@ -123,15 +172,15 @@ end Pulser
 namespace Pulser
 
 /-- "Good" step on a channel: keeps the invariant and only extends the timeline. -/
-def Good (c c' : ChanState) : Prop := ChanInv c' ∧ Ext c c'
+def Good (ms : Option Nat) (c c' : ChanState) : Prop := ChanInv ms c' ∧ Ext c c'
 
-theorem Good.rfl' {c : ChanState} (h : ChanInv c) : Good c c := ⟨h, Ext.refl c⟩
+theorem Good.rfl' {ms : Option Nat} {c : ChanState} (h : ChanInv ms c) : Good ms c c := ⟨h, Ext.refl c⟩
 
-theorem Good.trans {a b c : ChanState} (h1 : Good a b) (h2 : Good b c) : Good a c :=
+theorem Good.trans {ms : Option Nat} {a b c : ChanState} (h1 : Good ms a b) (h2 : Good ms b c) : Good ms a c :=
   ⟨h2.1, h1.2.trans h2.2⟩
 
-theorem waitForFall_inv {ms : Option Nat} {c c' : ChanState} (hi : ChanInv c)
-    (h : waitForFall ms c = .ok c') : Good c c' := by
+theorem waitForFall_inv {ms : Option Nat} {c c' : ChanState} (hi : ChanInv ms c)
+    (h : waitForFall ms c = .ok c') : Good ms c c' := by
   unfold waitForFall at h
   simp only at h
   split at h
@@ -142,22 +191,22 @@ theorem waitForFall_inv {ms : Option Nat} {c c' : ChanState} (hi : ChanInv c)
       exact addDelay_inv hi h
   · injection h with h; subst h; exact Good.rfl' hi
 
-theorem lift_good {c : ChanState} {e : Except Err ChanState} (hi : ChanInv c)
-    (h : ∀ c', e = .ok c' → Good c c') : Good c (CRes.lift c e).c := by
+theorem lift_good {ms : Option Nat} {c : ChanState} {e : Except Err ChanState} (hi : ChanInv ms c)
+    (h : ∀ c', e = .ok c' → Good ms c c') : Good ms c (CRes.lift c e).c := by
   unfold CRes.lift
   cases e with
   | error x => exact Good.rfl' hi
   | ok c' => exact h c' rfl
 
-theorem bind_good {c : ChanState} {r : CRes} {f : ChanState → CRes} (hr : Good c r.c)
-    (hf : ∀ c1, ChanInv c1 → Good c1 (f c1).c) : Good c (r.bind f).c := by
+theorem bind_good {ms : Option Nat} {c : ChanState} {r : CRes} {f : ChanState → CRes} (hr : Good ms c r.c)
+    (hf : ∀ c1, ChanInv ms c1 → Good ms c1 (f c1).c) : Good ms c (r.bind f).c := by
   unfold CRes.bind
   cases r.err with
   | none => exact hr.trans (hf _ hr.1)
   | some e => exact hr
 
-theorem addTarget_inv {ms : Option Nat} {c : ChanState} {qs : List Nat} (hi : ChanInv c) :
-    Good c (addTarget ms c qs).c := by
+theorem addTarget_inv {ms : Option Nat} {c : ChanState} {qs : List Nat} (hi : ChanInv ms c) :
+    Good ms c (addTarget ms c qs).c := by
   unfold addTarget
   split
   · rename_i hemp
@@ -170,7 +219,7 @@ theorem addTarget_inv {ms : Option Nat} {c : ChanState} {qs : List Nat} (hi : Ch
       injection h with h; subst h
       have : c.slots = [] := by simpa using hemp
       refine ⟨⟨hi.1, ?_⟩, Ext_snoc _ _⟩
-      show InvR c.cfg (c.slots ++ [_]).reverse
+      show InvR (c.ctx ms) (c.slots ++ [_]).reverse
       rw [this]; exact ⟨rfl, rfl, rfl⟩
   · apply bind_good (lift_good hi (fun c' h => waitForFall_inv hi h))
     intro c1 hi1
@@ -201,7 +250,7 @@ theorem addTarget_inv {ms : Option Nat} {c : ChanState} {qs : List Nat} (hi : Ch
               simp only [hc] at h
               injection h with h; subst h
               have hd := adjustDuration_ok hi1.1 ha
-              refine ⟨ChanInv_snoc hi1 hl ⟨rfl, by simp; omega, ?_, ?_⟩, Ext_snoc _ _⟩
+              refine ⟨ChanInv_snoc hi1 hl ⟨rfl, by simp; omega, ?_, checkDuration_bound hc, ?_⟩, Ext_snoc _ _⟩
               · exact Int.dvd_add hhead.1 (Int.ofNat_dvd.mpr hd.2.2.1)
               · right; simp; omega
         · have hz' : δ = 0 := by omega
@@ -212,7 +261,7 @@ theorem addTarget_inv {ms : Option Nat} {c : ChanState} {qs : List Nat} (hi : Ch
           | ok u =>
             simp only [hc] at h
             injection h with h; subst h
-            refine ⟨ChanInv_snoc hi1 hl ⟨rfl, by simp, ?_, ?_⟩, Ext_snoc _ _⟩
+            refine ⟨ChanInv_snoc hi1 hl ⟨rfl, by simp, ?_, checkDuration_bound hc, ?_⟩, Ext_snoc _ _⟩
             · simpa using hhead.1
             · left; simp
 
@@ -258,8 +307,9 @@ theorem makeNextPulseSlot_spec {ms : Option Nat} {c : ChanState} {others : List 
     (h : makeNextPulseSlot ms c others p barriers proto drift blk = .ok slot) :
     ∃ (delay : Nat) (p' : PulseRec),
       slot.ti = last.tf + delay ∧ slot.tf = slot.ti + p.dur ∧ slot.targets = last.targets ∧
-      slot.kind = .pulse p' ∧ p'.dur = p.dur ∧
-      (delay = 0 ∨ (c.cfg.minDur ≤ delay ∧ c.cfg.clock ∣ delay)) := by
+      slot.kind = .pulse p' ∧ (p'.dur = p.dur ∧ p'.ref = p.ref ∧ p'.sum = p.sum) ∧
+      (delay = 0 ∨ (c.cfg.minDur ≤ delay ∧ c.cfg.clock ∣ delay)) ∧
+      (blk = true → ∀ m, ms = some m → slot.tf ≤ (m : Int)) := by
   unfold makeNextPulseSlot at h
   simp only [hl, bind, Except.bind] at h
   -- name the pair (curMax, buffer)
@@ -288,11 +338,12 @@ theorem makeNextPulseSlot_spec {ms : Option Nat} {c : ChanState} {others : List 
         | ok u =>
           simp only [hcd] at h
           injection h with h; subst h
-          exact ⟨_, rfl, rfl, rfl, rfl, by cases drift <;> rfl,
-            .inr ⟨hd.1, hd.2.2.1⟩⟩
-      · injection h with h; subst h
-        exact ⟨_, rfl, rfl, rfl, rfl, by cases drift <;> rfl,
-          .inr ⟨hd.1, hd.2.2.1⟩⟩
+          exact ⟨_, rfl, rfl, rfl, rfl, by cases drift <;> exact ⟨rfl, rfl, rfl⟩,
+            .inr ⟨hd.1, hd.2.2.1⟩, fun _ => checkDuration_bound hcd⟩
+      · rename_i hblk
+        injection h with h; subst h
+        exact ⟨_, rfl, rfl, rfl, rfl, by cases drift <;> exact ⟨rfl, rfl, rfl⟩,
+          .inr ⟨hd.1, hd.2.2.1⟩, fun hb => absurd hb hblk⟩
   · simp only [hpos, if_false, pure, Except.pure] at h
     have hz : max (cm - last.tf) bf = 0 := by omega
     simp only [hz, Int.add_zero] at h
@@ -303,9 +354,12 @@ theorem makeNextPulseSlot_spec {ms : Option Nat} {c : ChanState} {others : List 
       | ok u =>
         simp only [hcd] at h
         injection h with h; subst h
-        exact ⟨_, by simp, rfl, rfl, rfl, by cases drift <;> rfl, .inl rfl⟩
-    · injection h with h; subst h
-      exact ⟨_, by simp, rfl, rfl, rfl, by cases drift <;> rfl, .inl rfl⟩
+        exact ⟨_, by simp, rfl, rfl, rfl, by cases drift <;> exact ⟨rfl, rfl, rfl⟩, .inl rfl,
+          fun _ => checkDuration_bound hcd⟩
+    · rename_i hblk
+      injection h with h; subst h
+      exact ⟨_, by simp, rfl, rfl, rfl, by cases drift <;> exact ⟨rfl, rfl, rfl⟩, .inl rfl,
+        fun hb => absurd hb hblk⟩
 
 end Pulser
 
@@ -346,8 +400,9 @@ theorem last_snoc (c : ChanState) (l : List Slot) (x : Slot) (h : c.slots = l ++
 /-- `add_pulse` needs a pulse whose duration has been validated for the channel. -/
 theorem addPulse_inv {ms : Option Nat} {c c' : ChanState} {others : List ChanState}
     {p : PulseRec} {barriers : List Int} {proto : Protocol} {drift : Option Drift}
-    (hi : ChanInv c) (hp : c.cfg.clock ∣ p.dur ∧ c.cfg.minDur ≤ p.dur)
-    (h : addPulse ms c others p barriers proto drift = .ok c') : Good c c' := by
+    (hi : ChanInv ms c) (hp : c.cfg.clock ∣ p.dur ∧ c.cfg.minDur ≤ p.dur)
+    (hlim : PulseLim c.cfg c.maxW c.sumW p)
+    (h : addPulse ms c others p barriers proto drift = .ok c') : Good ms c c' := by
   unfold addPulse at h
   cases hl : c.last with
   | error e => simp [hl, bind, Except.bind] at h
@@ -356,16 +411,19 @@ theorem addPulse_inv {ms : Option Nat} {c c' : ChanState} {others : List ChanSta
     | error e => simp [hl, hm, bind, Except.bind] at h
     | ok slot =>
       simp only [hl, hm, bind, Except.bind] at h
-      obtain ⟨delay, p', h1, h2, h3, h4, h5, h6⟩ := makeNextPulseSlot_spec hi.1 hl hm
+      obtain ⟨delay, p', h1, h2, h3, h4, ⟨h5, h5r, h5s⟩, h6, h7⟩ := makeNextPulseSlot_spec hi.1 hl hm
+      have h7 := h7 rfl
       obtain ⟨rest, hr⟩ := last_ok hl
       have hinv := hi.2; rw [hr] at hinv
       have hhead := InvR_head hinv
       have hslot : ∀ (prev : Slot), prev.tf = slot.ti → prev.targets = last.targets →
-          (c.cfg.clock : Int) ∣ prev.tf → SlotOk c.cfg prev slot := by
+          (c.cfg.clock : Int) ∣ prev.tf → SlotOk (c.ctx ms) prev slot := by
         intro prev e1 e2 e3
-        refine ⟨e1.symm, by omega, ?_, ?_⟩
+        refine ⟨e1.symm, by omega, ?_, h7, ?_⟩
         · rw [h2, ← e1]; exact Int.dvd_add e3 (Int.ofNat_dvd.mpr hp.1)
-        · rw [h4]; simp only; rw [h5]; exact ⟨h2, hp.2, h3.trans e2.symm⟩
+        · rw [h4]; simp only; rw [h5]
+          refine ⟨h2, hp.2, h3.trans e2.symm, ?_⟩
+          unfold PulseLim; rw [h5, h5r, h5s]; exact hlim
       by_cases hpos : slot.ti - last.tf > 0
       · simp only [hpos, if_true] at h
         cases had : addDelay ms c (slot.ti - last.tf).toNat with
@@ -390,11 +448,11 @@ theorem addPulse_inv {ms : Option Nat} {c c' : ChanState} {others : List ChanSta
               subst this; rfl
           have hl1 : c1.last = .ok x := last_snoc c1 _ x e1
           have hcfg : c1.cfg = c.cfg := hg.2.1
-          have hx : SlotOk c1.cfg x slot := by
-            rw [hcfg]
+          have hx : SlotOk (c1.ctx ms) x slot := by
+            rw [hg.2.ctx ms]
             apply hslot x (by rw [e3, hdd]; omega) e4
             have := (InvR_head (by have := hg.1.2; rw [(last_ok hl1).choose_spec] at this; exact this)).1
-            rwa [hcfg] at this
+            simpa [hcfg] using this
           exact ⟨ChanInv_snoc hg.1 hl1 hx, hg.2.trans (Ext_snoc _ _)⟩
       · simp only [hpos, if_false, pure, Except.pure] at h
         injection h with h; subst h
@@ -405,18 +463,22 @@ end Pulser
 
 namespace Pulser
 
-theorem Good_of_same {c c' : ChanState} (hi : ChanInv c) (h1 : c'.cfg = c.cfg)
-    (h2 : c'.slots = c.slots) (h3 : c'.name = c.name) : Good c c' :=
-  ⟨⟨by rw [h1]; exact hi.1, by rw [h1, h2]; exact hi.2⟩, h1, h3, by rw [h2]; exact List.prefix_refl _⟩
+theorem Good_of_same {ms : Option Nat} {c c' : ChanState} (hi : ChanInv ms c) (h1 : c'.cfg = c.cfg)
+    (h2 : c'.slots = c.slots) (h3 : c'.name = c.name) (h4 : c'.maxW = c.maxW) (h5 : c'.sumW = c.sumW) :
+    Good ms c c' := by
+  have he : Ext c c' := ⟨h1, h3, by rw [h2]; exact List.prefix_refl _, h4, h5⟩
+  exact ⟨⟨by rw [h1]; exact hi.1, by rw [he.ctx ms, h2]; exact hi.2⟩, he⟩
 
 theorem mkDetunedDelay_pulseOk {c : ChanState} {d : Nat} {x y : Rat} {p : PulseRec} {d0 : Nat}
     (hc : 0 < c.cfg.clock) (ha : c.adjust d0 = .ok d) (h : mkDetunedDelay c d x y = .ok p) :
-    c.cfg.clock ∣ p.dur ∧ c.cfg.minDur ≤ p.dur := by
+    (c.cfg.clock ∣ p.dur ∧ c.cfg.minDur ≤ p.dur) ∧ PulseLim c.cfg c.maxW c.sumW p := by
   have := adjustDuration_ok hc ha
-  rw [mkDetunedDelay_ok h]; exact ⟨this.2.2.1, this.1⟩
+  refine ⟨by rw [mkDetunedDelay_ok h]; exact ⟨this.2.2.1, this.1⟩, ?_⟩
+  refine ⟨fun hne => absurd (mkDetunedDelay_ref h) hne, ?_⟩
+  rw [mkDetunedDelay_ok h]; exact this.2.2.2.2
 
 theorem enableEom_inv {ms : Option Nat} {c : ChanState} {amp detOn detOff : Rat} {sb sw : Bool}
-    (hi : ChanInv c) : Good c (enableEom ms c amp detOn detOff sb sw).c := by
+    (hi : ChanInv ms c) : Good ms c (enableEom ms c amp detOn detOff sb sw).c := by
   unfold enableEom
   simp only
   apply bind_good
@@ -436,7 +498,7 @@ theorem enableEom_inv {ms : Option Nat} {c : ChanState} {amp detOn detOff : Rat}
           · split at h
             · cases h
             · rename_i p hm
-              exact addPulse_inv hi1 (mkDetunedDelay_pulseOk hi1.1 ha hm) h
+              exact addPulse_inv hi1 (mkDetunedDelay_pulseOk hi1.1 ha hm).1 (mkDetunedDelay_pulseOk hi1.1 ha hm).2 h
           · exact addDelay_inv hi1 h
     · exact Good.rfl' hi
   · intro c1 hi1
@@ -447,10 +509,10 @@ theorem enableEom_inv {ms : Option Nat} {c : ChanState} {amp detOn detOff : Rat}
     | ok last =>
       simp only [hl, bind, Except.bind] at h
       injection h with h; subst h
-      exact Good_of_same hi1 rfl rfl rfl
+      exact Good_of_same hi1 rfl rfl rfl rfl rfl
 
 theorem disableEom_inv {ms : Option Nat} {c : ChanState} {sb : Bool}
-    (hi : ChanInv c) : Good c (disableEom ms c sb).c := by
+    (hi : ChanInv ms c) : Good ms c (disableEom ms c sb).c := by
   unfold disableEom
   apply bind_good
   · apply lift_good hi
@@ -460,7 +522,7 @@ theorem disableEom_inv {ms : Option Nat} {c : ChanState} {sb : Bool}
     | ok last =>
       simp only [hl, bind, Except.bind] at h
       injection h with h; subst h
-      exact Good_of_same hi rfl rfl rfl
+      exact Good_of_same hi rfl rfl rfl rfl rfl
   · intro c1 hi1
     split
     · exact Good.rfl' hi1
